@@ -12,6 +12,7 @@ C17.X  = C03.X (a printed literal stays a literal exactly where the class wants 
 from __future__ import annotations
 
 import ast
+import copy
 from typing import List, Optional
 
 from .. import astutil as A
@@ -71,7 +72,55 @@ def fstring_parts(ev, m, node) -> Optional[List]:
         if l is None or r is None:
             return None
         return l + r
+    if isinstance(node, ast.Call) and isinstance(node.func, ast.Name) and node.func.id == "str" and len(node.args) == 1 and not node.keywords:
+        return [("hole", node.args[0])]
+    # <separator>.join(<sequence of string expressions>)
+    if isinstance(node, ast.Call) and isinstance(node.func, ast.Attribute) and node.func.attr == "join" and len(node.args) == 1 and not node.keywords:
+        sep = fstring_parts(ev, m, node.func.value)
+        items = _sequence_items(ev, m, node.args[0])
+        if sep is None or items is None or not all(k == "lit" for k, _ in sep):
+            return None
+        out = []
+        for i, it in enumerate(items):
+            if i:
+                out.extend(sep)
+            out.extend(it)
+        return out
     return None
+
+
+def _sequence_items(ev, m, node) -> Optional[List[List]]:
+    """the string templates of the elements of a list / tuple display; `*[f(x) for x in (a, b)]` and `*(a, b)` are written out"""
+    if not isinstance(node, (ast.List, ast.Tuple)):
+        return None
+    out = []
+    for e in node.elts:
+        if isinstance(e, ast.Starred):
+            v = e.value
+            if isinstance(v, (ast.List, ast.Tuple)):
+                sub = _sequence_items(ev, m, v)
+                if sub is None:
+                    return None
+                out.extend(sub)
+                continue
+            if isinstance(v, (ast.ListComp, ast.GeneratorExp)) and len(v.generators) == 1 and not v.generators[0].ifs and isinstance(v.generators[0].target, ast.Name) \
+                    and isinstance(v.generators[0].iter, (ast.Tuple, ast.List)):
+                var = v.generators[0].target.id
+                for item in v.generators[0].iter.elts:
+                    class Sub(ast.NodeTransformer):
+                        def visit_Name(self, n):
+                            return copy.deepcopy(item) if n.id == var else n
+                    p_ = fstring_parts(ev, m, Sub().visit(copy.deepcopy(v.elt)))
+                    if p_ is None:
+                        return None
+                    out.append(p_)
+                continue
+            return None
+        p_ = fstring_parts(ev, m, e)
+        if p_ is None:
+            return None
+        out.append(p_)
+    return out
 
 
 def merge_lits(parts):
@@ -117,7 +166,7 @@ def check_printers(ctx):
             ctx.error("C17.P", f"{po.name}._pretty_print: unrecognised shape")
             continue
         defs = A.single_defs(fn)
-        parts = fstring_parts(ev, po.module, A.expand(rets[0].value, {k: v for k, v in defs.items() if isinstance(v, (ast.JoinedStr, ast.Constant, ast.BinOp))}))
+        parts = fstring_parts(ev, po.module, A.expand(rets[0].value, {k: v for k, v in defs.items() if isinstance(v, (ast.JoinedStr, ast.Constant, ast.BinOp, ast.Call, ast.List, ast.Tuple, ast.Subscript, ast.Attribute))}))
         if parts is None:
             ctx.error("C17.P", f"{po.name}._pretty_print: not an f-string: {src(rets[0].value)[:60]}")
             continue
@@ -352,6 +401,8 @@ def check_symbols(ctx):
             raise AnalysisError(f"text.{fname} not found")
         ctx.fn("text." + fname)
         calls = {A.call_name(c) for c in A.calls_in(fn)}
+        # a parser that is handed over as a function object (a list of parsers tried in turn) counts as used
+        calls |= {n_.id for n_ in ast.walk(fn) if isinstance(n_, ast.Name) and isinstance(n_.ctx, ast.Load) and n_.id in tm.functions}
         strict = sorted(c for c in calls if c in STRICT)
         uses_shared = any(c in calls for c in must_call)
         ctx.check("C17.Y", f"parser:{fname}:shared-integer-syntax", uses_shared and not strict,
